@@ -10,7 +10,7 @@ CONSTANTS
   FnFilter = "nogeneric3"
   Shapes = {"plain", "star"}
   MaxSess = 2
-  FixProtoCache = FALSE
+  FixProtoCache = TRUE
   Bug = "none"
 INVARIANT InvBindAgree
 CHECK_DEADLOCK FALSE
